@@ -97,7 +97,7 @@ SPEC = dict(
             _ns("one-element-mid", "--space", "one", "--l1", "mid"),
             _ns("one-element-small-both-versions", "--space", "one", "--l1", "small", "--v11all", 1),
             _ns("one-element-two-attributes", "--space", "one", "--l1", "attr2"),
-            _ns("depth2-envs-x-mid", "--space", "two", "--l1", "envs", "--l2", "mid"),
+            _ns("depth2-env6-x-mid", "--space", "two", "--l1", "env6", "--l2", "mid"),
             _ns("depth2-env-x-two-attributes", "--space", "two", "--l1", "env", "--l2", "use2"),
             _ns("siblings-env4", "--space", "sib", "--l1", "env4", "--l2", "decl1", "--l3", "use"),
             _ns("ladders-quick", "--space", "ladder", "--ladder", "quick"),
